@@ -110,10 +110,22 @@ theorem replaceGo_id (old new : Tok) (a : Char) (o : Tok) (ho : old = a :: o) (s
     simp only [replaceGo, this]
     simp [ih (fun h => hs (by simp [h]))]
 
+theorem replaceShortcutsGo_id (s : Tok) (h1 : ' ' ∉ s) (h2 : '\\' ∉ s) (inb : Bool) (acc : RToks) :
+    replaceShortcutsGo s inb false acc = (s.map fun c => [c]).reverse ++ acc := by
+  induction s generalizing inb acc with
+  | nil => simp [replaceShortcutsGo]
+  | cons c r ih =>
+    have hc1 : c ≠ ' ' := fun e => h1 (by simp [e])
+    have hc2 : c ≠ '\\' := fun e => h2 (by simp [e])
+    simp only [replaceShortcutsGo, Bool.false_eq_true, if_false, hc1, hc2, decide_false]
+    rw [ih (fun h => h1 (by simp [h])) (fun h => h2 (by simp [h]))]
+    simp
+
 theorem replaceShortcuts_id (s : Tok) (h1 : ' ' ∉ s) (h2 : '\\' ∉ s) : replaceShortcuts s = s := by
-  simp only [replaceShortcuts, shortcuts, List.foldl, replace]
-  rw [replaceGo_id _ _ ' ' [] rfl s h1, replaceGo_id _ _ '\\' ['d'] rfl s h2,
-    replaceGo_id _ _ '\\' ['s'] rfl s h2, replaceGo_id _ _ '\\' ['w'] rfl s h2]
+  simp only [replaceShortcuts, replaceShortcutsGo_id s h1 h2 false [], joinR]
+  induction s with
+  | nil => rfl
+  | cons c r ih => simp_all
 
 theorem escapeInBrackets_fold (s : Tok) (hs : ∀ c ∈ s, c ≠ '\\' ∧ c ≠ '[') (rt : RToks)
     (h : escNext rt = false) :
